@@ -390,6 +390,15 @@ func (c C09Case) tree() *m.Node {
 			return sized(c.Op, c.Inner, c.N)
 		}
 		tree := sized(c.Op, c.Inner, base)
+		leaves := 0
+		tree.Walk(func(x *m.Node) {
+			if x.Kind == m.KVar {
+				leaves++
+			}
+		})
+		if leaves < c.Ifs+c.Bins+c.IfBins { // (more decorations drawn than the remaining program has leaves: the plain program of that size)
+			return sized(c.Op, c.Inner, c.N)
+		}
 		decorate(tree, c.Ifs, c.Bins, c.IfBins)
 		return tree
 	case "deep":
